@@ -7,7 +7,7 @@ ARGS = [0, 1, 2, 3]
 
 DEFAULT_PROFILE = dict(
     nops=(8, 28),
-    w=dict(obj=4, seq=3, exp=14, call=30, rmexp=5, rmobj=2, mvobj=1.5, cpobj=0.3, asobj=0.4, mon=2.5, rmseq=0.7, mvseq=0.0,
+    w=dict(obj=4, seq=3, exp=14, call=30, rmexp=5, rmobj=2, mvobj=1.5, cpobj=0.3, asobj=0.4, mon=2.5, rmseq=0.7, mvseq=0.0, defer=0.0,
            tr=0.7, rmtr=0.7, rep=0.5, setp=0.3),
     kinds=dict(M=6, N=1.5, W=2, P=1.5),
     max_obj=4, max_seq=3, max_exp=8,
@@ -92,6 +92,15 @@ class RandomGen:
 
         def emit(op):
             pr = m.apply(op)
+            if op[0] in ('call', 'callx'):
+                # expectations that came or went inside the call (deferred operations of side effects)
+                reserved = {d[1] for d in m.deferred.values() if d[0] == 'exp'}
+                for eid in [x for x in exp_slot if x not in m.exps and x not in reserved]:
+                    k = exp_slot.pop(eid)
+                    if k[0] == 'site':
+                        live_sites.discard(k[1])
+                    else:
+                        live_slots.discard(k)
             ops.append(op)
             preds.append(pr)
             if pr.cut and cut_at[0] is None:
@@ -122,7 +131,7 @@ class RandomGen:
                         return True
             return False
 
-        def gen_exp():
+        def gen_exp(force_dop=None, plain=False):
             objs = mock_objs()
             if not objs or sum(1 for e in m.exps.values() if not e.is_mon) >= pf['max_exp']:
                 return None
@@ -158,8 +167,21 @@ class RandomGen:
                 p['val2'] = rng.choice(ARGS)
             for i in range(s['nw']):
                 p['w%d' % i] = 15 if rng.random() < pf['p_with_accept'] else rng.randrange(0, 16)
+            if force_dop is not None and (s['ns'] == 0 or s['fn'] in ('v', 'r')):
+                return None
+            dop_at = rng.randrange(s['ns']) if force_dop is not None else -1
             for i in range(s['ns']):
                 r = rng.random()
+                if plain:
+                    continue
+                if i == dop_at:
+                    p['se%d' % i] = 6        # this side effect carries out the deferred operation (releases / creates an expectation)
+                    p['dop'] = force_dop
+                    continue
+                if force_dop is not None:
+                    if r < pf['p_se_throw']:
+                        p['se%d' % i] = 1
+                    continue
                 if r > 1 - pf['p_se_nested'] and s['fn'] not in ('gs', 'r') and 'nobj' not in p:
                     # conditional recursion (nested v(arg-1) while arg>0): may target the expectation's own object,
                     # for an expectation on v that is genuine recursion into the same mock function
@@ -258,7 +280,13 @@ class RandomGen:
             if kind == 'exp':
                 return gen_exp()
             if kind == 'call':
-                return gen_call()
+                c = gen_call()
+                if c is not None and m.deferred:
+                    m2 = m.clone()
+                    m2.apply(c)
+                    if m2.illegal:
+                        return None
+                return c
             if kind == 'rmexp':
                 if not m.exps:
                     return None
@@ -308,6 +336,23 @@ class RandomGen:
                 if not c:
                     return None
                 return ('rmseq', rng.choice(c))
+            if kind == 'defer':
+                # an operation that a side effect of a new expectation will carry out: release another expectation,
+                # or create one
+                if len(m.deferred) >= 2:
+                    return None
+                k = fresh()
+                if m.exps and rng.random() < 0.55:
+                    inner = ('rmexp', rng.choice(sorted(m.exps)))
+                else:
+                    inner = gen_exp(plain=True)
+                    if inner is None:
+                        return None
+                    if inner[5].get('hi', 1) != -1 and inner[5].get('lo', 1) > inner[5].get('hi', 1):
+                        inner[5]['hi'] = inner[5]['lo']
+                emit(('defer', k) + tuple(inner))
+                op2 = gen_exp(force_dop=k)
+                return op2
             if kind == 'mvseq':
                 if not m.seqs:
                     return None
